@@ -110,9 +110,13 @@ def rule_S2(ctx, R):
                            "by value (single exception: the guarded constructor)")
     from rules_ts2 import key_construction_sites
     ctor = set(ctx.F.top_fn(f)["path"] for f, _ in key_construction_sites(ctx))
+    # the one function with no inputs that yields a key is the guarded constructor (K1/K2 decide that it is guarded), wherever
+    # the struct literal itself lives (a private `const fn new()`, a closure)
+    ctor |= set(f["path"] for f in ctx.F.fns if f.get("reachable") and "inputs" in f and not f["inputs"]
+                and any(x["k"] == "adt" and x["path"] == KEY for x in ty_walk(f["output"])))
     paths = {KEY} | R.key_carriers
     for f in ctx.F.fns:
-        if "inputs" not in f or f.get("unsafe"):
+        if "inputs" not in f or f.get("unsafe") or not f.get("reachable"):
             continue
         out = f["output"]
         gives = contains_by_value(out, paths) or any(
@@ -375,6 +379,8 @@ def rule_O1(ctx, R):
             f = ctx.F.fn_by_id.get(it["id"])
             if not f or "inputs" not in f or f.get("unsafe"):
                 continue
+            if not f.get("reachable"):
+                continue      # a crate-private accessor gives nothing to a client
             n += 1
             if R.roles(f) & {"ACQ-GUARD", "ACQ-SCOPED"}:
                 res.ok(f["path"] + " (acquisition)")
